@@ -117,7 +117,7 @@ Definition owner_crashed (s : sys) (T : N) : bool :=
 Inductive reason :=
 | R1_unprewritten | R1_ts_start | R1_ts_mincommit | R1_ts_tso | R1_secondary_first | R1_key_not_mutation
 | R2_rollback_after_commit | R2_commit_after_rollback
-| R3_resolve_unreported | R3_wrong_primary | R3_csl_unlisted
+| R3_resolve_unreported | R3_wrong_primary | R3_csl_unlisted | R3_force_unjustified
 | R4_expire_live_lock
 | R5_hb_primary | R5_hb_ttl_decrease | R5_hb_ttl_age | R5_hb_after_end
 | R6_primary_mismatch | R6_primary_not_locked | R6_key_not_mutation | R6_async_secondaries | R6_onepc_split | R6_mutations_late
@@ -188,11 +188,12 @@ Fixpoint step_csl_locks (s : sys) (T : N) (l : list (N * N)) : option sys :=
   | [] => Some s
   | (k, m) :: r => match step_key s T k (tr_csl_lock m) with Some s' => step_csl_locks s' T r | None => None end
   end.
-(* a reported min-commit ts agrees with the store: an async-commit lock keeps the min-commit ts it was
-   created with (0 = not an async-commit lock: no constraint), a committed key reports its commit ts *)
+(* a reported min-commit ts agrees with the store: a lock keeps the min-commit ts it was created with
+   (0 = not an async-commit lock; an async-commit lock may be reported as 0 once a forced CheckTxnStatus
+   turned it into a 2PC lock), a committed key reports its commit ts *)
 Definition mc_consistent (s : sys) (T : N) (m k : N) : bool :=
   match kget s T k with
-  | Locked m0 => (m0 =? 0) || (m0 =? m)
+  | Locked m0 => (m0 =? m) || (m =? 0)
   | Committed c => (m =? 0) || (m =? c)
   | _ => true
   end.
@@ -253,6 +254,7 @@ Definition csl_all_locked (s : sys) (r T c : N) : bool :=
          (r' =? r) && (s' =? T) &&
          let l := csl_lock_ms s r T in
          forallb (fun k => existsb (fun km => fst km =? k) l) secs &&
+         forallb (fun km => negb (snd km =? 0)) (filter (fun km => mem (fst km) secs) l) &&   (* every lock an async-commit lock *)
          (c =? fold_left N.max (map snd (filter (fun km => mem (fst km) secs) l)) m)
      | _ => false end) (s_cts s).
 
@@ -282,7 +284,7 @@ Definition step_pw_send (s : sys) (e : event) (r T p : N) (ks : list N) (async o
 Definition step_pw_deliver (s : sys) (r T : N) (ks : list N) (x : pw_res) : res :=
   chk (sent_by s (fun e => match e with EPwSend r' s' _ ks' _ _ _ _ _ => (r' =? r) && (s' =? T) && leqb ks' ks | _ => false end)) else N_no_send;
   chk (match x with
-       | PwOk _ o => (o =? 0) || sent_by s (fun e => match e with EPwSend _ s' _ _ _ true _ _ _ => s' =? T | _ => false end)
+       | PwOk _ o => (o =? 0) || sent_by s (fun e => match e with EPwSend r' s' _ ks' _ true _ _ _ => (r' =? r) && (s' =? T) && leqb ks' ks | _ => false end)
        | _ => true end) else S_onepc;
   let c := getc s T in
   chk (negb (commit_point_pw c) || forallb (fun k => kcnt c KDlv k + occ k ks <=? kcnt c KSent k) ks) else N_dup_prewrite;
@@ -391,9 +393,12 @@ Definition step_rb_deliver (s : sys) (r T : N) (ks : list N) (x : rb_res) : res 
   | _ => Ok s1
   end.
 
-Definition step_cts_send (s : sys) (e : event) (r T cur : N) (rbine : bool) : res :=
+(* the resolver met a lock of T that is not an async-commit lock (CheckSecondaryLocks reports it with min-commit 0) *)
+Definition nonasync_seen (s : sys) (r T : N) : bool := existsb (fun km => snd km =? 0) (csl_lock_ms s r T).
+Definition step_cts_send (s : sys) (e : event) (r T cur : N) (rbine force : bool) : res :=
   chk (negb (crashed s r)) else X_crashed;
   chk (negb ((cur =? maxts) || rbine) || expire_allowed s r T) else R4_expire_live_lock;
+  chk (negb force || nonasync_seen s r T) else R3_force_unjustified;
   Ok (add_sent s e).
 
 Definition step_cts_deliver (s : sys) (r T p : N) (st : cts_st) : res :=
@@ -411,7 +416,7 @@ Definition step_cts_deliver (s : sys) (r T p : N) (st : cts_st) : res :=
       match step_key (if asyncl then setc s1 T (setn c FStFb 1) else s1) T p tr_rb with Some s' => Ok s' | None => Rej S_cts_rolledback end
   | StLocked _ m a secs =>
       chk (negb a || fb c FTriedA) else S_cts_async;
-      chk (negb a || match kget s T p with Locked m0 => (m0 =? 0) || (m0 =? m) | _ => false end) else S_cts_locked;
+      chk (negb a || match kget s T p with Locked m0 => (m0 =? m) && negb (m =? 0) | _ => false end) else S_cts_locked;
       chk (negb (a && fb c FHasm) || (p =? cn c FPrim)) else S_cts_secondary;
       chk (negb (a && fb c FHasm) ||
            (subset secs (c_lm c) && negb (mem p secs) && forallb (fun k => (k =? p) || mem k secs) (c_lm c))) else S_cts_secs;
@@ -425,7 +430,7 @@ Definition step_csl_deliver (s : sys) (r T : N) (ks : list N) (st : csl_st) : re
   match st with
   | CslLocks l =>
       chk (forallb (fun k => existsb (fun km => fst km =? k) l) ks) else S_csl_locks;
-      chk (forallb (fun km => match kget s T (fst km) with Locked m0 => (m0 =? 0) || (m0 =? snd km) | _ => false end) l) else S_csl_locks;
+      chk (forallb (fun km => match kget s T (fst km) with Locked m0 => m0 =? snd km | _ => false end) l) else S_csl_locks;
       match step_csl_locks s1 T l with Some s' => Ok s' | None => Rej S_csl_locks end
   | CslCommit C =>
       if C =? 0 then
@@ -526,7 +531,7 @@ Definition stepr (s : sys) (e : event) : res :=
       chk (sent_by s (fun e => match e with EPrSend r' s' f' ks' => (r' =? r) && (s' =? T) && (f' =? f) && leqb ks' ks | _ => false end)) else N_no_send;
       Ok (add_dlv s (EPrReply r T f ks x))
   | EPrReply r _ _ _ _ => plain_reply s e r
-  | ECtsSend r T _ _ cur rbine _ _ => step_cts_send s e r T cur rbine
+  | ECtsSend r T _ _ cur rbine force _ => step_cts_send s e r T cur rbine force
   | ECtsDeliver r T p st => step_cts_deliver s r T p st
   | ECtsReply r _ _ _ =>
       chk (negb (crashed s r)) else X_crashed; chk (delivered s e) else N_no_deliver; Ok (w_cts s (e :: s_cts s))
